@@ -113,15 +113,23 @@ def resolveReg (ctx : Ctx) : Val → Int → M (String × Int)
     resolveReg ctx src (a + idx * s)
   | _, _ => .error (.other "AttributeError")
 
-/-- `NamedQubit.resolve_qubit(context)` -/
+def isRegister : Val → Bool
+  | .regF _ _ => true
+  | .regA _ _ => true
+  | .regS _ _ _ _ _ => true
+  | _ => false
+
+/-- `NamedQubit.resolve_qubit(context)`: the resolved source must be a `Register` and the resolved
+index an int (an integral float is converted), else `JaqalError`. -/
 def resolveQubit (ctx : Ctx) : Val → M (String × Int)
   | .qubit _ src idx => do
     let i ← resolveAV ctx (avFuel ctx) idx
     let r ← resolveAV ctx (avFuel ctx) src
+    if !isRegister r then throw (.jaqal "not-a-register")
     match i with
     | .int k => resolveReg ctx r k
-    | .flt _ => .error (.other "float-index")
-    | _ => .error (.other "TypeError")
+    | .flt d => if d.isIntegral then resolveReg ctx r d.toInt else .error (.jaqal "index-not-integer")
+    | _ => .error (.jaqal "index-not-integer")
   | _ => .error (.other "AttributeError")
 
 end Jaqal.Resolve
